@@ -796,14 +796,7 @@ static void value_oracle(const std::string &fn, const vec_basic &args, const RCP
                 av.push_back(norm0(ev(*a, env)));
             cd expect = apply_fn(fn, av);
             cd got = ev(*res, env);
-            if (nan_c(expect) || nan_c(got)) {
-                if (nan_c(expect) != nan_c(got) && !(nan_c(got) && !finite_c(expect))) {
-                    // nan only on one side: report unless the expected value is infinite (oo - oo situations)
-                    if (nan_c(got) && finite_c(expect)) {
-                        oracle = "FAIL:value-" + fn + ":result evaluates to nan, expected " + cstr(expect);
-                        return;
-                    }
-                }
+            if (nan_c(expect)) {
                 stat("oracle_points_discarded_nan");
                 continue;
             }
@@ -832,6 +825,14 @@ static void value_oracle(const std::string &fn, const vec_basic &args, const RCP
                 }
             if (!stable) {
                 stat("oracle_points_discarded_illconditioned");
+                continue;
+            }
+            if (nan_c(got)) {
+                if (finite_c(expect) && std::abs(expect) < 1e8) {
+                    oracle = "FAIL:value-" + fn + ":result evaluates to nan, expected " + cstr(expect);
+                    return;
+                }
+                stat("oracle_points_discarded_nan");
                 continue;
             }
             if (!finite_c(expect)) {
@@ -1029,7 +1030,16 @@ std::string hx_run(const std::string &line, std::string &oracle)
     }
     if (args.empty() && fn != "Max" && fn != "Min" && fn != "LeviCivita")
         return "bad-op";
-    RCP<const Basic> res = call_fn(fn, args);
+    RCP<const Basic> res;
+    try {
+        res = call_fn(fn, args);
+    } catch (const SymEngine::VerifAssertError &e) {
+        // a canonical-form / precondition assertion inside the constructor: one oracle key per function,
+        // so that different defects are reported separately
+        oracle = "FAIL:assert-" + fn + ":" + e.what();
+        stat("calls_" + fam);
+        return "E:Assert";
+    }
     stat("calls_" + fam);
     if (!exact_oracle(fn, args, res, oracle))
         value_oracle(fn, args, res, line, oracle);
